@@ -135,11 +135,26 @@ type cfgT struct {
 	evict                                                  bool
 	numBytes, bytesPerSender, count, countPerSender, batch uint32
 	chunks                                                 uint32
+	senders                                                [][]byte // the sender alphabet of the history (nil = senderAlphabet)
+}
+
+// addresses that collide when truncated to, or zero-padded up to, 32 bytes: two short ones differing by a trailing 0x00 and two of
+// 33 bytes sharing their first 32
+var collidingSenders = func() [][]byte {
+	p := bytes.Repeat([]byte{0x5a}, 32)
+	return [][]byte{[]byte("A"), {'A', 0x00}, append(append([]byte{}, p...), 'x'), append(append([]byte{}, p...), 'y')}
+}()
+
+func (c cfgT) senderList() [][]byte {
+	if c.senders != nil {
+		return c.senders
+	}
+	return senderAlphabet
 }
 
 func (c cfgT) tokens() []string {
-	al := make([]string, len(senderAlphabet))
-	for i, s := range senderAlphabet {
+	al := make([]string, len(c.senderList()))
+	for i, s := range c.senderList() {
 		al[i] = core.B(s)
 	}
 	return []string{core.Bool(c.evict), core.N(uint64(c.numBytes)), core.N(uint64(c.bytesPerSender)), core.N(uint64(c.count)),
@@ -210,10 +225,14 @@ func genConfig(prop string, rng *rand.Rand) cfgT {
 			c.batch = core.Pick(rng, []uint32{0, 1})
 		}
 	}
+	if core.Chance(rng, 1, 10) {
+		c.senders = collidingSenders
+	}
 	return c
 }
 
 type gen struct {
+	senders [][]byte
 	edgeSizes bool // a few transactions have sizes >= 2^31
 	uniform bool // all transactions have the same size (one drop always suffices: no F4)
 	rng   *rand.Rand
@@ -234,7 +253,7 @@ func (g *gen) newTx(base string) *txSpec {
 		}
 	}
 	t := &txSpec{hash: []byte(h)}
-	t.sender = core.Pick(rng, senderAlphabet)
+	t.sender = core.Pick(rng, g.senders)
 	t.nonce = core.Pick(rng, []uint64{0, 0, 1, 1, 2, 2, 3, 3, 4, 5})
 	if core.Chance(rng, 1, 40) {
 		t.nonce = core.Pick(rng, []uint64{math.MaxUint64, math.MaxUint64 - 1})
@@ -296,7 +315,7 @@ func (g *gen) newTx(base string) *txSpec {
 func (g *gen) sessionArgs(gasTable []uint64, maxTable []uint64) []string {
 	rng := g.rng
 	var accts []string
-	addrs := append(append([][]byte{}, senderAlphabet...), []byte("R"))
+	addrs := append(append([][]byte{}, g.senders...), []byte("R"))
 	for _, a := range addrs {
 		if core.Chance(rng, 1, 7) {
 			continue // lookup failure
@@ -331,7 +350,7 @@ func (comp) Gen(prop string, rng *rand.Rand, tier string) *core.History {
 	h := &core.History{}
 	cfg := genConfig(prop, rng)
 	h.SetConfig(cfg.tokens()...)
-	g := &gen{rng: rng, known: map[string]*txSpec{}, uniform: core.Chance(rng, 3, 5), edgeSizes: core.Chance(rng, 1, 15)}
+	g := &gen{rng: rng, known: map[string]*txSpec{}, uniform: core.Chance(rng, 3, 5), edgeSizes: core.Chance(rng, 1, 15), senders: cfg.senderList()}
 	n := core.LongHistory(rng, 12+rng.Intn(40))
 	selW, remW := 22, 12
 	switch base {
